@@ -100,6 +100,13 @@ MUTATIONS = [
     ("tlexport/main.py", "        if len(packet_payload) < 6:", "        if len(packet_payload) < 5:", "handle_quic_packet: 5-byte long header read"),
     ("tlexport/output_builder.py", "        self.default_port = 8080", "        self.default_port = 8081", "OutputBuilder: fallback port"),
     ("tlexport/quic/quic_output_builder.py", "        if keep_original_ports is False:", "        if keep_original_ports is True:", "QUICOutputbuilder: flag inverted"),
+    # group Reasm2: the framing part of extract_*_buf (the two functions are copies: the n-th occurrence of the text)
+    ("tlexport/session.py", "            packet_ranges.append((total_packet_len, total_packet_len + packet_len, i))", "            packet_ranges.append((total_packet_len, total_packet_len + packet_len + 1, i))", "extract_server_frame: packet ranges one byte too long", 0),
+    ("tlexport/session.py", "            if total_packet_len - index < 5:", "            if total_packet_len - index < 4:", "extract_client_frame: four trailing bytes taken for a record header", 1),
+    ("tlexport/session.py", "                    if index < packet_range[1] and index + record_len > packet_range[0]:", "                    if index <= packet_range[1] and index + record_len > packet_range[0]:", "extract_server_frame: a packet that ends where the record starts counted as a carrier", 0),
+    ("tlexport/session.py", "                binary = packet_data[index:index + record_len]", "                binary = packet_data[index:index + record_len - 1]", "extract_client_frame: record one byte short", 1),
+    ("tlexport/session.py", "            record_len = int.from_bytes(record_len, 'big') + 5", "            record_len = int.from_bytes(record_len, 'big') + 4", "extract_server_frame: need_data scan with 4-byte record headers", 0),
+    ("tlexport/session.py", "            self.client_packet_buffer.clear()", "            pass", "extract_client_frame: buffer kept after delivery"),
     # group TlsSess2: the record handlers of session.py, whole
     ("tlexport/session.py", "        if self.server_cipher_change and isserver and self.can_decrypt:", "        if self.server_cipher_change and isserver:", "handle_handshake_finished: decrypts although the session cannot decrypt"),
     ("tlexport/session.py", "        if self.exp_meta and _plaintext != b\"\":", "        if _plaintext != b\"\":", "handle_handshake_finished: exports without the meta-data flag"),
@@ -149,6 +156,8 @@ REWRITES = [
     ("tlexport/session.py", [("        if alert_level == 0x1 and self.tls_version != TlsVersion.TLS13:\n            return\n        self.can_decrypt = False\n        self.client_hello_seen = False\n",
                               "        if not (alert_level == 0x1 and self.tls_version != TlsVersion.TLS13):\n            self.can_decrypt = False\n            self.client_hello_seen = False\n")],
      "handle_alert: early return turned into a guarded block"),
+    ("tlexport/session.py", [("                metadata = []\n                record_len = packet_data[index + 3: index + 5]", "                record_len = packet_data[index + 3: index + 5]\n                metadata = []", 0)],
+     "extract_server_frame: two independent statements swapped"),
     ("tlexport/session.py", [("        if self.server_cipher_change and isserver and self.can_decrypt:", "        if isserver and self.server_cipher_change and self.can_decrypt:")], "handle_handshake_finished: operands of `and` reordered"),
     ("tlexport/session.py", [("                if len(record.binary) > 0:\n                    self.handle_alert(record.binary[0])", "                if len(record.binary) != 0:\n                    self.handle_alert(record.binary[0])")], "handle_tls_record: `len(\u2026) > 0` written `len(\u2026) != 0`"),
     ("tlexport/session.py", [("            length = int.from_bytes(buffer[1:4], 'big')", "            length = int.from_bytes(buffer[1:4], byteorder='big')")], "handle_decrypted_tls_13_handshake_record: byteorder given by keyword"),
@@ -176,6 +185,10 @@ def group_of(what):
         return ["Checksum"]
     if fn in ("parse_frames", "frame_type") or fn.endswith("Frame"):
         return ["Frames"]
+    if fn in ("extract_server_frame", "extract_client_frame"):
+        return ["Reasm2"]
+    if fn in ("extract_server_buf", "extract_client_buf") and "next_seq" in what:
+        return ["Reasm", "Reasm2"]
     if fn == "handle_quic_packet":
         return ["QuicDissect"] if "long header read" in what else ["Demux"]
     return table[fn]
@@ -230,7 +243,12 @@ def edit(root, file, pairs):
     text = open(path).read()
     for p in pairs:
         old, new = p[0], p[1]
-        if len(p) == 3:
+        if len(p) == 3 and isinstance(p[2], int):
+            # the text occurs several times (extract_server_buf / extract_client_buf are copies): the p[2]-th occurrence
+            parts = text.split(old)
+            assert len(parts) > p[2] + 1, (file, old, len(parts) - 1)
+            text2 = old.join(parts[:p[2] + 1]) + new + old.join(parts[p[2] + 1:])
+        elif len(p) == 3:
             text2 = re.sub(old, new, text)
             assert text2 != text, (file, old)
         else:
@@ -256,9 +274,9 @@ def mutation_test(only=None):
         st, det, failed = build_props(SCRATCH)
         print(f"  unmodified copy: {st}")
         ok &= st == "proved"
-        for file, old, new, what in muts:
+        for file, old, new, what, *nth in muts:
             t0 = time.time()
-            edit(SCRATCH, file, [(old, new)])
+            edit(SCRATCH, file, [(old, new, *nth)])
             st, det, failed = build_props(SCRATCH)
             subprocess.run(["git", "-C", SCRATCH, "checkout", "--", file], check=True)
             caught = st != "proved"
